@@ -195,3 +195,49 @@ Print Assumptions C01_dirty_geometry_agrees.
 Print Assumptions C01_dirty_chain_agrees.
 Print Assumptions C01_contained_transfers_to_dirty.
 Print Assumptions C01_volmem_geometry_agrees.
+
+(* ================================================================== third-party implementors
+   of trait VolatileMemory (Suite/C01impl.v, Proofs/C01Impl.v): the PROVIDED methods
+   as_volatile_slice / get_ref / get_array_ref / aligned_as_ref / aligned_as_mut / get_atomic_ref,
+   over ANY get_slice function gs - nothing is assumed of it except where stated. *)
+From VM Require Suite.C01impl Proofs.C01Impl.
+
+(* every answer of a provided method is built from a slice gs returned for exactly the request's
+   (offset, byte count), and - for the typed accessors - only if that slice has the requested
+   length (the length assertions) and, where alignment matters, an aligned address *)
+Theorem C01_any_implementor_shape : forall m gs L op c, op_wf op ->
+  derive_vm m gs L op = Val (Ok c) -> C01Impl.vm_shape gs L op c.
+Proof. exact C01Impl.derive_vm_shape_lemma. Qed.
+
+(* hence: if the implementor's get_slice only returns slices of its own memory [A, A+L), every
+   accessor a provided method hands out lies in [A, A+L) too, and typed / atomic ones are aligned *)
+Theorem C01_any_implementor_contained : forall m gs A L op c,
+  (forall off cnt s, gs off cnt = Val (Ok s) -> A <= vs_addr s /\ vs_addr s + vs_size s <= A + L) ->
+  op_wf op -> derive_vm m gs L op = Val (Ok c) ->
+  (A <= acc_base c /\ acc_base c + acc_len c <= A + L) /\ acc_aligned c.
+Proof. exact C01Impl.any_implementor_contained_lemma. Qed.
+
+(* and if, whenever it returns the requested number of bytes, they are the requested ones, a typed
+   request that is answered with an accessor fits, and the accessor is exactly the one named *)
+Theorem C01_any_implementor_exact : forall m gs A L op c,
+  (forall off cnt s, gs off cnt = Val (Ok s) -> vs_size s = cnt -> off + cnt <= L /\ vs_addr s = A + off) ->
+  op_wf op -> C01Impl.is_typed_request op = true ->
+  derive_vm m gs L op = Val (Ok c) -> fits_vm A L op /\ c = child_vm A L op.
+Proof. exact C01Impl.any_implementor_exact_lemma. Qed.
+
+(* the model of the provided methods over the three stand-in implementors of the harness (count
+   clamped / rest of the memory / one byte short) satisfies the checker on every case *)
+Theorem C01impl_model_ok : forall ci, C01impl.wf_caseimpl ci ->
+  C01impl.ok_C01impl ci (C01impl.run_C01impl ci) = true.
+Proof. exact C01Impl.C01impl_model_ok_lemma. Qed.
+
+Example C01impl_nonvacuous :
+  derive_vm Release (C01impl.impl_gs C01impl.IK_CLAMP 4096 6) 6 (DGetAtomicRef {| e_size := 4; e_align := 4 |} 4) = Panic 264 /\
+  derive_vm Release (C01impl.impl_gs C01impl.IK_CLAMP 4096 8) 8 (DGetAtomicRef {| e_size := 4; e_align := 4 |} 4)
+    = Val (Ok (AAtomic (TR 4100 4 4))).
+Proof. exact C01Impl.impl_clamp_refuses. Qed.
+
+Print Assumptions C01_any_implementor_shape.
+Print Assumptions C01_any_implementor_contained.
+Print Assumptions C01_any_implementor_exact.
+Print Assumptions C01impl_model_ok.
